@@ -24,6 +24,13 @@ func init() {
 		var outc chan []byte
 		var tick chan time.Time
 		base := tooOld.Count()
+		// every emitted line is kept as the slice the aggregator sent (no copy) next to its text at emission time and
+		// re-read at the end of the case: a consumer (route, destination queue, spool) may hold it that long
+		type heldLine struct {
+			raw  []byte
+			text string
+		}
+		var held []heldLine
 		scanLines(func(f []string, raw string) {
 			switch f[0] {
 			case "cfg":
@@ -31,6 +38,7 @@ func init() {
 				interval, _ := strconv.Atoi(f[2])
 				wait, _ := strconv.Atoi(f[3])
 				outc = make(chan []byte, 1000000)
+				held = nil
 				tick = make(chan time.Time)
 				var err error
 				a, err = aggregator.NewMocked(f[1], m, "$1", false, uint(interval), uint(wait), false, outc, 0, nowFn, tick)
@@ -55,7 +63,9 @@ func init() {
 				a.Snapshot()
 				var lines []string
 				for len(outc) > 0 {
-					lines = append(lines, string(<-outc))
+					b := <-outc
+					held = append(held, heldLine{b, string(b)})
+					lines = append(lines, string(b))
 				}
 				sort.SliceStable(lines, func(i, j int) bool {
 					ti := lines[i][strings.LastIndex(lines[i], " ")+1:]
@@ -71,6 +81,12 @@ func init() {
 				}
 			case "end":
 				emit("tooold %d", tooOld.Count()-base)
+				for _, h := range held {
+					if string(h.raw) != h.text {
+						emit("held-mutated %s %s", hexs([]byte(h.text)), hexs(h.raw))
+						break
+					}
+				}
 			}
 		})
 	}
